@@ -1,0 +1,438 @@
+//go:build verif
+
+package multi
+
+// Bounded stand-in for the row-stored part of C07 (and the multi-row clause of C05): short edit histories on
+// small ragged alignments are run on the real Multi and on a plain grid model, and every observation
+// (row view, column view with and without fill, span) is compared. Only compiled with -tags verif.
+
+import (
+	"fmt"
+	"os"
+	"testing"
+
+	"github.com/biogo/biogo/alphabet"
+	"github.com/biogo/biogo/seq"
+	"github.com/biogo/biogo/seq/linear"
+)
+
+type verifRow struct {
+	off int
+	ls  []alphabet.QLetter
+}
+
+type verifGrid struct {
+	rows []verifRow
+}
+
+func (g verifGrid) clone() verifGrid {
+	c := verifGrid{rows: make([]verifRow, len(g.rows))}
+	for i, r := range g.rows {
+		c.rows[i] = verifRow{r.off, append([]alphabet.QLetter(nil), r.ls...)}
+	}
+	return c
+}
+
+func (g verifGrid) span() (start, end int) {
+	for i, r := range g.rows {
+		if i == 0 || r.off < start {
+			start = r.off
+		}
+		if i == 0 || r.off+len(r.ls) > end {
+			end = r.off + len(r.ls)
+		}
+	}
+	return
+}
+
+func (g verifGrid) String() string {
+	s := ""
+	for _, r := range g.rows {
+		s += fmt.Sprintf("[%d:", r.off)
+		for _, l := range r.ls {
+			s += string(rune(l.L))
+		}
+		s += "]"
+	}
+	return s
+}
+
+var verifCompl = map[alphabet.Letter]alphabet.Letter{'a': 't', 'c': 'g', 'g': 'c', 't': 'a', 'n': 'n', '-': '-'}
+
+// build makes the real alignment of a grid; quality rows carry the qualities, plain rows drop them.
+func (g verifGrid) build(quality bool) *Multi {
+	var rows []seq.Sequence
+	for i, r := range g.rows {
+		if quality {
+			s := linear.NewQSeq(fmt.Sprint("r", i), append([]alphabet.QLetter(nil), r.ls...), alphabet.DNA, alphabet.Sanger)
+			s.Offset = r.off
+			rows = append(rows, s)
+		} else {
+			ls := make([]alphabet.Letter, len(r.ls))
+			for k, l := range r.ls {
+				ls[k] = l.L
+			}
+			s := linear.NewSeq(fmt.Sprint("r", i), ls, alphabet.DNA)
+			s.Offset = r.off
+			rows = append(rows, s)
+		}
+	}
+	m, err := NewMulti("m", rows, seq.DefaultConsensus)
+	if err != nil {
+		panic(err)
+	}
+	return m
+}
+
+// agree compares every observation of the real alignment with the grid.
+func verifAgree(m *Multi, g verifGrid, quality bool) error {
+	if m.Rows() != len(g.rows) {
+		return fmt.Errorf("Rows() = %d, want %d", m.Rows(), len(g.rows))
+	}
+	for i, r := range g.rows {
+		row := m.Row(i)
+		if row.Start() != r.off || row.End() != r.off+len(r.ls) {
+			return fmt.Errorf("row %d spans [%d,%d), want [%d,%d)", i, row.Start(), row.End(), r.off, r.off+len(r.ls))
+		}
+		for k, l := range r.ls {
+			got := row.At(r.off + k)
+			if got.L != l.L || (quality && got.Q != l.Q) {
+				return fmt.Errorf("row %d position %d holds %c/%d, want %c/%d", i, r.off+k, got.L, got.Q, l.L, l.Q)
+			}
+		}
+	}
+	if len(g.rows) == 0 {
+		return nil
+	}
+	start, end := g.span()
+	if m.Start() != start || m.End() != end || m.Len() != end-start {
+		return fmt.Errorf("alignment spans [%d,%d) len %d, want [%d,%d)", m.Start(), m.End(), m.Len(), start, end)
+	}
+	for pos := start; pos < end; pos++ {
+		for _, fill := range []bool{true, false} {
+			var want []alphabet.QLetter
+			for _, r := range g.rows {
+				if r.off <= pos && pos < r.off+len(r.ls) {
+					want = append(want, r.ls[pos-r.off])
+				} else if fill {
+					want = append(want, alphabet.QLetter{L: '-'})
+				}
+			}
+			col := m.Column(pos, fill)
+			if len(col) != len(want) {
+				return fmt.Errorf("Column(%d,%v) has %d entries, want %d", pos, fill, len(col), len(want))
+			}
+			for k := range col {
+				if col[k] != want[k].L {
+					return fmt.Errorf("Column(%d,%v)[%d] = %c, row view has %c", pos, fill, k, col[k], want[k].L)
+				}
+			}
+			colq := m.ColumnQL(pos, fill)
+			if len(colq) != len(want) {
+				return fmt.Errorf("ColumnQL(%d,%v) has %d entries, want %d", pos, fill, len(colq), len(want))
+			}
+			for k := range colq {
+				if colq[k].L != want[k].L {
+					return fmt.Errorf("ColumnQL(%d,%v)[%d] = %c, row view has %c", pos, fill, k, colq[k].L, want[k].L)
+				}
+			}
+			// a column in which every row holds the same valid letter has that letter (up to case) as consensus
+			if !fill && len(want) == len(g.rows) {
+				same := true
+				for _, l := range want {
+					if l.L != want[0].L || l.L == '-' || l.L == 'n' {
+						same = false
+					}
+				}
+				if same {
+					c := seq.DefaultConsensus(m, alphabet.DNA, pos, false)
+					if c.L|0x20 != want[0].L|0x20 {
+						return fmt.Errorf("consensus of uniform column %d is %c, want %c", pos, c.L, want[0].L)
+					}
+				}
+			}
+		}
+	}
+	return nil
+}
+
+type verifOp struct {
+	name string
+	// do applies the operation to both; skip=true when the operation's precondition does not hold for this grid
+	do func(m *Multi, g *verifGrid, quality bool) (skip bool, err error)
+}
+
+func verifQL(l byte, q int) alphabet.QLetter { return alphabet.QLetter{L: alphabet.Letter(l), Q: alphabet.Qphred(q)} }
+
+func verifOps() []verifOp {
+	var ops []verifOp
+	ops = append(ops, verifOp{"AppendColumns(2)", func(m *Multi, g *verifGrid, quality bool) (bool, error) {
+		cols := make([][]alphabet.QLetter, 2)
+		for c := range cols {
+			for i := range g.rows {
+				cols[c] = append(cols[c], verifQL("gtac"[(c+i)%4], 20+c+i))
+			}
+		}
+		if err := m.AppendColumns(cols...); err != nil {
+			return false, err
+		}
+		for i := range g.rows {
+			for c := range cols {
+				g.rows[i].ls = append(g.rows[i].ls, cols[c][i])
+			}
+		}
+		// the caller's buffers stay the caller's
+		for c := range cols {
+			for i := range cols[c] {
+				cols[c][i] = verifQL('n', 1)
+			}
+		}
+		return false, nil
+	}})
+	ops = append(ops, verifOp{"AppendEach(unequal)", func(m *Multi, g *verifGrid, quality bool) (bool, error) {
+		a := make([][]alphabet.QLetter, len(g.rows))
+		for i := range a {
+			for k := 0; k < (i+1)%3; k++ {
+				a[i] = append(a[i], verifQL("tgca"[(k+i)%4], 30+k))
+			}
+		}
+		if err := m.AppendEach(a); err != nil {
+			return false, err
+		}
+		for i := range g.rows {
+			g.rows[i].ls = append(g.rows[i].ls, a[i]...)
+		}
+		for i := range a {
+			for k := range a[i] {
+				a[i][k] = verifQL('n', 1)
+			}
+		}
+		return false, nil
+	}})
+	for _, which := range []int{0, 1, 2} {
+		which := which
+		ops = append(ops, verifOp{fmt.Sprintf("Delete(%d)", which), func(m *Multi, g *verifGrid, quality bool) (bool, error) {
+			if which >= len(g.rows) || len(g.rows) == 1 {
+				return true, nil
+			}
+			m.Delete(which)
+			g.rows = append(g.rows[:which:which], g.rows[which+1:]...)
+			return false, nil
+		}})
+	}
+	for _, where := range []int{seq.Start, seq.End, seq.Start | seq.End} {
+		where := where
+		ops = append(ops, verifOp{fmt.Sprintf("Flush(%d)", where), func(m *Multi, g *verifGrid, quality bool) (bool, error) {
+			m.Flush(where, '-')
+			start, end := g.span()
+			for i := range g.rows {
+				r := &g.rows[i]
+				if where&seq.Start != 0 && r.off > start {
+					pad := make([]alphabet.QLetter, r.off-start)
+					for k := range pad {
+						pad[k] = alphabet.QLetter{L: '-'}
+					}
+					r.ls = append(pad, r.ls...)
+					r.off = start
+				}
+				if where&seq.End != 0 {
+					for r.off+len(r.ls) < end {
+						r.ls = append(r.ls, alphabet.QLetter{L: '-'})
+					}
+				}
+			}
+			return false, nil
+		}})
+	}
+	// the widest range every row covers, shrunk by one at the left when possible
+	common := func(g *verifGrid) (int, int, bool) {
+		lo, hi := 0, 0
+		for i, r := range g.rows {
+			if i == 0 || r.off > lo {
+				lo = r.off
+			}
+			if i == 0 || r.off+len(r.ls) < hi {
+				hi = r.off + len(r.ls)
+			}
+		}
+		if hi-lo >= 2 {
+			lo++
+		}
+		return lo, hi, lo < hi
+	}
+	ops = append(ops, verifOp{"Truncate(common)", func(m *Multi, g *verifGrid, quality bool) (bool, error) {
+		lo, hi, ok := common(g)
+		if !ok {
+			return true, nil
+		}
+		if err := m.Truncate(lo, hi); err != nil {
+			return false, err
+		}
+		for i := range g.rows {
+			r := &g.rows[i]
+			r.ls = r.ls[lo-r.off : hi-r.off]
+			r.off = lo
+		}
+		return false, nil
+	}})
+	ops = append(ops, verifOp{"Subseq(common)", func(m *Multi, g *verifGrid, quality bool) (bool, error) {
+		lo, hi, ok := common(g)
+		if !ok {
+			return true, nil
+		}
+		before := g.clone()
+		sub, err := m.Subseq(lo, hi)
+		if err != nil {
+			return false, err
+		}
+		sg := g.clone()
+		for i := range sg.rows {
+			r := &sg.rows[i]
+			r.ls = r.ls[lo-r.off : hi-r.off]
+			r.off = lo
+		}
+		if err := verifAgree(sub, sg, quality); err != nil {
+			return false, fmt.Errorf("subsequence: %v", err)
+		}
+		if err := verifAgree(m, before, quality); err != nil {
+			return false, fmt.Errorf("receiver after Subseq: %v", err)
+		}
+		return false, nil
+	}})
+	ops = append(ops, verifOp{"Clone+mutate", func(m *Multi, g *verifGrid, quality bool) (bool, error) {
+		c := m.Clone().(*Multi)
+		if err := verifAgree(c, *g, quality); err != nil {
+			return false, fmt.Errorf("clone: %v", err)
+		}
+		cg := g.clone()
+		for i := range cg.rows {
+			if len(cg.rows[i].ls) > 0 {
+				c.Row(i).Set(cg.rows[i].off, verifQL('n', 2))
+				cg.rows[i].ls[0] = verifQL('n', 2)
+			}
+			c.Row(i).SetOffset(cg.rows[i].off + 5)
+			cg.rows[i].off += 5
+		}
+		if err := verifAgree(m, *g, quality); err != nil {
+			return false, fmt.Errorf("original after mutating the clone: %v", err)
+		}
+		if err := verifAgree(c, cg, quality); err != nil {
+			return false, fmt.Errorf("mutated clone: %v", err)
+		}
+		return false, nil
+	}})
+	ops = append(ops, verifOp{"RevComp", func(m *Multi, g *verifGrid, quality bool) (bool, error) {
+		m.RevComp()
+		start, end := g.span()
+		for i := range g.rows {
+			r := &g.rows[i]
+			n := len(r.ls)
+			rev := make([]alphabet.QLetter, n)
+			for k, l := range r.ls {
+				rev[n-1-k] = alphabet.QLetter{L: verifCompl[l.L], Q: l.Q}
+			}
+			r.ls = rev
+			r.off = start + (end - (r.off + n)) // mirrored about the alignment's span
+		}
+		return false, nil
+	}})
+	ops = append(ops, verifOp{"Add(row)", func(m *Multi, g *verifGrid, quality bool) (bool, error) {
+		if len(g.rows) >= 4 {
+			return true, nil
+		}
+		nr := verifRow{off: 1, ls: []alphabet.QLetter{verifQL('t', 11), verifQL('t', 12)}}
+		ng := verifGrid{rows: []verifRow{nr}}
+		if err := m.Add(ng.build(quality).Row(0)); err != nil {
+			return false, err
+		}
+		g.rows = append(g.rows, nr)
+		return false, nil
+	}})
+	return ops
+}
+
+func verifGrids(maxRows, maxLen, maxOff int, visit func(verifGrid)) {
+	var cur []verifRow
+	var rec func(k int)
+	rec = func(k int) {
+		if k == 0 {
+			visit(verifGrid{rows: cur}.clone())
+			return
+		}
+		for off := 0; off <= maxOff; off++ {
+			for n := 0; n <= maxLen; n++ {
+				r := verifRow{off: off - 1}
+				for j := 0; j < n; j++ {
+					r.ls = append(r.ls, verifQL("acgta"[(len(cur)*2+j)%5], 10+len(cur)*3+j))
+				}
+				cur = append(cur, r)
+				rec(k - 1)
+				cur = cur[:len(cur)-1]
+			}
+		}
+	}
+	for k := 1; k <= maxRows; k++ {
+		rec(k)
+	}
+}
+
+// TestVerifBounded_C07_MultiHistories: every history of up to depth operations from every small ragged grid.
+func TestVerifBounded_C07_MultiHistories(t *testing.T) {
+	depth, maxRows, maxLen, maxOff := 2, 3, 2, 2
+	if os.Getenv("VERIF_TIER") == "thorough" {
+		depth, maxRows, maxLen, maxOff = 3, 3, 3, 2
+	}
+	ops := verifOps()
+	cases, nontrivial := 0, 0
+	failures := map[string]bool{}
+	for _, quality := range []bool{false, true} {
+		verifGrids(maxRows, maxLen, maxOff, func(g0 verifGrid) {
+			var run func(hist []int)
+			run = func(hist []int) {
+				if len(hist) > 0 {
+					cases++
+					g := g0.clone()
+					m := g.build(quality)
+					var names []string
+					err := func() (err error) {
+						defer func() {
+							if e := recover(); e != nil {
+								err = fmt.Errorf("panic: %v", e)
+							}
+						}()
+						for _, oi := range hist {
+							names = append(names, ops[oi].name)
+							skip, err := ops[oi].do(m, &g, quality)
+							if skip {
+								return nil
+							}
+							if err != nil {
+								return err
+							}
+							if err := verifAgree(m, g, quality); err != nil {
+								return err
+							}
+						}
+						nontrivial++
+						return nil
+					}()
+					if err != nil {
+						key := fmt.Sprint(names[len(names)-1], ": ", err)
+						if !failures[key] && len(failures) < 12 {
+							t.Errorf("grid %v (quality=%v) history %v: %v", g0, quality, names, err)
+						}
+						failures[key] = true
+						return
+					}
+				}
+				if len(hist) < depth {
+					for oi := range ops {
+						run(append(hist[:len(hist):len(hist)], oi))
+					}
+				}
+			}
+			run(nil)
+		})
+	}
+	fmt.Printf("BOUNDED name=C07.multi-histories cases=%d nontrivial=%d exhaustive=true domain=\"row-stored alignments of 1..%d rows (plain and quality), row lengths 0..%d, offsets -1..%d; every history of 1..%d operations from {AppendColumns, AppendEach with unequal runs, Delete, Flush at either/both ends, Truncate, Subseq, Clone then mutate, RevComp, Add}; after each step the row view, the column view with and without fill, the span and the consensus of uniform columns are compared with a grid model\"\n", cases, nontrivial, maxRows, maxLen, maxOff-1, depth)
+}
